@@ -117,7 +117,7 @@ class Opaque:
         self.what = what
 
     def __repr__(self):
-        return "<%s>" % self.what
+        return "<%s>" % (self.what,)
 
 
 UNIT = Opaque("unit")
@@ -655,6 +655,8 @@ class Interp:
             return self.named_const(fr, o, ty)
         if "str" in o:
             return Opaque(("str", o["str"]))
+        if "bytes" in o or str(o.get("ty", "")).startswith(("&[u8", "&'static [u8", "&str")):
+            return Opaque(("bytes", o.get("text")))      # format templates and other byte literals
         raise Unsupported("constant %s" % (o.get("text") or o.get("ty")))
 
     def named_const(self, fr, o, ty):
@@ -817,10 +819,12 @@ class Interp:
                     raise Unsupported("switch on %r" % (v,))
                 c = v.const()
                 if c is None:
-                    raise Undecided("branch at %s:%s" % (body["path"], t.get("line")))
+                    # no listed value lies in the range: every value of the cell takes the `otherwise` edge
+                    if any(v.lo <= int(val) <= v.hi for val, tgt in t["targets"]):
+                        raise Undecided("branch at %s:%s" % (body["path"], t.get("line")))
                 nxt = t["otherwise"]
                 for val, tgt in t["targets"]:
-                    if int(val) == c:
+                    if c is not None and int(val) == c:
                         nxt = tgt
                 self.trace.append((body["path"], bi, nxt))
                 bi = nxt
@@ -861,12 +865,32 @@ class Interp:
         r = self.std_call(name, args, fargs, fr, t)
         if r is not NotImplemented:
             return r
+        if f.get("fn_crate") in ("anyhow", "alloc", "core", "std") and re.match(r"(anyhow::|alloc::fmt::|core::fmt::|std::fmt::|alloc::string::|core::panicking::)", name) \
+                and t["target"] is not None:
+            return Opaque(("foreign", name))       # error values / formatted messages: nothing the analysed clauses depend on
+        if name == "std::hint::must_use" and len(args) == 1:
+            return args[0]
+        if f.get("fn_crate") != "dsi_bitstream" and t["target"] is not None and args and all(self.is_opaque(a) for a in args):
+            return Opaque(("foreign", name))       # a foreign function of values the analysis does not look into
         if f.get("fn_crate") == "dsi_bitstream":
             body = self.find_body(name, fargs)
             if body is not None:
                 env = dict(zip(body["generics"], fargs))
                 return self.call_body(body, args, env, depth + 1)
         raise Unsupported("call of %s" % name)
+
+    def is_opaque(self, a):
+        if isinstance(a, Opaque):
+            return True
+        if isinstance(a, Ref):
+            try:
+                v = self.project(a.frame, a.frame.locals.get(a.local), a.proj)
+            except Unsupported:
+                return False
+            return isinstance(v, Opaque) or v is None
+        if isinstance(a, Agg):
+            return all(self.is_opaque(x) for x in a.fields)
+        return False
 
     def subst(self, fr, a):
         if a in fr.env:
@@ -1099,6 +1123,18 @@ class Interp:
             return self.cast(x, dst)
         # operator traits on integers (generic code): std::ops::Shl::shl(a, b) etc.
         m = re.match(r"std::ops::(Shl|Shr|BitAnd|BitOr|BitXor|Add|Sub|Mul|Div|Rem)::(\w+)$", name)
+        if m and len(args) == 2:
+            # operators are also implemented for references to integers (`&a - b`): same arithmetic on the referents
+            der = []
+            for a in args:
+                if isinstance(a, Ref):
+                    try:
+                        a = self.project(a.frame, a.frame.locals.get(a.local), a.proj)
+                    except Unsupported:
+                        pass
+                der.append(a)
+            if all(isinstance(a, AI) for a in der):
+                args = der
         if m and len(args) == 2 and isinstance(args[0], AI) and isinstance(args[1], AI):
             op = m.group(1)
             x, y = args
